@@ -176,12 +176,12 @@ def handle (args : List String) : String :=
         s!"ok {s.cipherSuite} {s.createdAt} {toHex s.resumptionSecret} {showHexList s.certificate.certificates} {showOptHex s.certificate.ocsp} {showHexList scts}"
       | none => "err"
     | none => "bad-op"
-  | ["res12", ks, t, o, dis, now, vers, cs, ss, auth, flags, _] =>
-    match parseKeys ks, ofHex t, parseOracle o, parseInt now, vers.toNat?, parseNatList cs, parseNatList ss, auth.toNat?, flags.toNat? with
-    | some ks, some t, some o, some now, some vers, some cs, some ss, some auth, some flags =>
+  | ["res12", ks, t, o, dis, now, vers, hvers, cs, ss, auth, flags, _] =>
+    match parseKeys ks, ofHex t, parseOracle o, parseInt now, vers.toNat?, hvers.toNat?, parseNatList cs, parseNatList ss, auth.toNat?, flags.toNat? with
+    | some ks, some t, some o, some now, some vers, some hvers, some cs, some ss, some auth, some flags =>
       let keys := ks.map ticketKeyFromBytes
       let os := o.toList
-      let x : Ctx12 := { ticketsDisabled := dis == "1", now := now, vers := vers, clientSuites := cs, serverSuites := ss,
+      let x : Ctx12 := { ticketsDisabled := dis == "1", now := now, vers := vers, helloVers := hvers, clientSuites := cs, serverSuites := ss,
                          clientAuth := auth, ecdheOk := bitSet flags 8, ecSignOk := bitSet flags 4,
                          rsaSignOk := bitSet flags 2, rsaDecryptOk := bitSet flags 1 }
       if !oracleCovers os keys t then "oracle-miss"
@@ -189,7 +189,7 @@ def handle (args : List String) : String :=
         match checkForResumption12 hmacSha256 (ctrOf os) suiteByID x keys t with
         | none => "full"
         | some (st, suite) => s!"resume {suite} {b01 st.usedOldKey} {showState12 st}"
-    | _, _, _, _, _, _, _, _, _ => "bad-op"
+    | _, _, _, _, _, _, _, _, _, _ => "bad-op"
   | ["res13", ks, dis, now, suite, modes, auth, nb, ids, _] =>
     match parseKeys ks, parseInt now, suite.toNat?, ofHex modes, auth.toNat?, nb.toNat? with
     | some ks, some now, some suite, some modes, some auth, some nb =>
